@@ -416,3 +416,98 @@ func (i *interpreter) compileSymbolicPattern(pat symstr) value {
 	_ = types.Int
 	return tuple{&cell, iface{}}
 }
+
+// ---------------------------------------------------------------------
+// Possessive reference matcher: every repetition and choice keeps its first
+// (greedy, leftmost) result and never gives characters back.  This is the
+// matching discipline the lexer generator documents for emitted code; C05
+// tolerates a difference between generated and runtime lexer only on inputs
+// where this matcher and the backtracking matcher disagree on some rule.
+
+func (m *reMatcher) pmatch(re *syntax.Regexp, p int) int {
+	switch re.Op {
+	case syntax.OpNoMatch:
+		return -1
+	case syntax.OpEmptyMatch:
+		return p
+	case syntax.OpLiteral, syntax.OpCharClass, syntax.OpAnyCharNotNL, syntax.OpAnyChar,
+		syntax.OpBeginLine, syntax.OpEndLine, syntax.OpBeginText, syntax.OpEndText,
+		syntax.OpWordBoundary, syntax.OpNoWordBoundary:
+		end := -1
+		m.match(re, p, func(q int) bool { end = q; return true })
+		return end
+	case syntax.OpCapture:
+		q := m.pmatch(re.Sub[0], p)
+		if q >= 0 {
+			m.caps[2*re.Cap], m.caps[2*re.Cap+1] = p, q
+		}
+		return q
+	case syntax.OpConcat:
+		for _, s := range re.Sub {
+			if p = m.pmatch(s, p); p < 0 {
+				return -1
+			}
+		}
+		return p
+	case syntax.OpAlternate:
+		for _, s := range re.Sub {
+			if q := m.pmatch(s, p); q >= 0 {
+				return q
+			}
+		}
+		return -1
+	case syntax.OpStar, syntax.OpPlus, syntax.OpQuest, syntax.OpRepeat:
+		min, max := 0, -1
+		switch re.Op {
+		case syntax.OpPlus:
+			min = 1
+		case syntax.OpQuest:
+			max = 1
+		case syntax.OpRepeat:
+			min, max = re.Min, re.Max
+		}
+		if re.Flags&syntax.NonGreedy != 0 {
+			panic(unsupported("possessive matcher: non-greedy operator"))
+		}
+		count := 0
+		for max < 0 || count < max {
+			q := m.pmatch(re.Sub[0], p)
+			if q < 0 {
+				break
+			}
+			count++
+			if q == p {
+				break // an empty iteration does not repeat
+			}
+			p = q
+		}
+		if count < min {
+			return -1
+		}
+		return p
+	}
+	panic(unsupported("possessive matcher: regexp op " + re.Op.String()))
+}
+
+// possessiveFindTree matches tree at the start of b possessively and returns
+// the submatch index vector or nil.
+func (i *interpreter) possessiveFindTree(tree *syntax.Regexp, holes map[rune]value, b []value) []int {
+	ncap := countCaps(tree)
+	m := &reMatcher{i: i, b: b, holes: holes, decode: map[int]decoded{}, memo: map[reMemoKey]bool{}}
+	m.caps = make([]int, 2*(ncap+1))
+	for j := range m.caps {
+		m.caps[j] = -1
+	}
+	end := m.pmatch(tree, 0)
+	if end < 0 {
+		return nil
+	}
+	m.caps[0], m.caps[1] = 0, end
+	return m.caps
+}
+
+// RefrePossessiveConcrete is the possessive matcher on a concrete string.
+func RefrePossessiveConcrete(pattern string, s string) []int {
+	i := &interpreter{modelsHit: map[string]bool{}}
+	return i.possessiveFindTree(parseTree(pattern), nil, strBytes(s))
+}
